@@ -51,12 +51,13 @@ def check_program(col, pp, cfg, prog, queries=None, draw=None):
     pair = programs.baked_pair(col, pp, prog)
     if pair is None:
         return
-    world, eager, rr = pair
+    full = prog
+    world, eager, rr, prog = pair        # for a chained program: the second recipe and its part of the ledger
     ref = world.ref
     recipe = rr.recipe
     steps = programs.real_steps(prog)
     stages = programs.stages_of(prog)
-    keys = sorted(eager.env.keys())
+    keys = sorted(k for k in eager.env.keys() if k in rr.decl)
     if not keys or not steps:
         col.exclude('empty program')
         return
@@ -92,7 +93,7 @@ def check_program(col, pp, cfg, prog, queries=None, draw=None):
         is_plate = final['k'] == 'p'
         col.label(f"obj:{'p' if is_plate else 'c'}")
         col.label(f"timeframe:{'all' if q['timeframe'] == 'all' else 'stage'}")
-        case = {'program': True, 'subs': prog['subs'], 'objects': prog['objects'], 'steps': prog['steps'], 'queries': [q]}
+        case = {'program': True, 'subs': full['subs'], 'objects': full['objects'], 'steps': full['steps'], 'queries': [q]}
         shape = tuple(final['shape']) if is_plate else None
         nw = len(programs.wells_of(final))
         names = {n for snap in eager.snapshots if key in snap for _, w in programs.wells_of(snap[key]) for n, _ in w['contents']}
@@ -178,7 +179,7 @@ def run(col):
     pp = core.env.bootstrap()
     cfg = RefCfg()
     prof = {'max_steps': 10 if col.tier == 'quick' else 20, 'max_dim': 3, 'keep_failing': False,
-            'weights': {'remove': 3, 'transfer': 8, 'solution': 3}, 'dilute_new_name': False}
+            'weights': {'remove': 3, 'transfer': 8, 'solution': 3}, 'dilute_new_name': False, 'chain': True}
 
     def t():
         @given(st.data())
